@@ -47,6 +47,9 @@ MC_CandU == {<<1, "w0", "n1">>, <<2, "w0", "n1">>, <<3, "w0", "n1">>, <<4, "w0",
              <<5, "w0", "n1">>, <<6, "w0", "n0">>, <<7, "w0", "n0">>, <<8, "w0", "n1">>,
              <<9, "w0", "n2">>, <<10, "w0", "n1">>, <<1, "w1", "n0">>, <<4, "w1", "n1">>, <<4, "w0", "n1">>}
 
+\* a small universe for long repetition patterns (A B A B, A B C A C, ...)
+MC_CandU_small == {<<1, "w0", "n1">>, <<2, "w0", "n1">>, <<7, "w0", "n0">>, <<10, "w0", "n1">>}
+
 \* ---- pre-states -------------------------------------------------------------
 Build(ops) == ApplyOps(EmptyState, ops).s
 Base == <<OpUpsertInst("w0", "n0", None), OpUpsertNode("w0", "n0", "tA"), OpUpsertNode("w0", "n1", "tA")>>
